@@ -27,7 +27,7 @@ def correspondence(ctx):
         for mn, m in _mods():
             for f in ('cell_volume', 'form_a_mat', 'form_b_mat', 'form_a_mat_inv', 'cell_invert'):
                 cases.append({'fn': '%s.%s' % (mn, f), 'args': list(c), 'py': (lambda m=m, f=f, c=c: getattr(m, f)(list(c))),
-                              'rtol': 1e-9, 'atol': 1e-13})
+                              'rtol': 1e-9, 'atol': 1e-13, 'scale': 'auto' if f.startswith('form_') else None})
             cases.append({'fn': '%s.sintl' % mn, 'args': list(c) + h, 'py': (lambda m=m, c=c, h=h: m.sintl(list(c), h))})
             A = m.form_a_mat(c)
             B = m.form_b_mat(c)
